@@ -415,8 +415,11 @@ def run_check(pid, tier, seed, keep=False):
 
     t_mc = time.time() - t0
     # ---- (R) replay in the real code, (T) record
-    traces_s, bad_s = vlib.run_harness(spec_scripts, wd, name="spec", shards=10) if spec_scripts else ([], [])
-    traces_r, bad_r = vlib.run_harness(rand_scripts, wd, name="rand", shards=6) if rand_scripts else ([], [])
+    quick = tier == "quick"
+    traces_s, bad_s = vlib.run_harness(spec_scripts, wd, name="spec", shards=10 if quick else 16,
+                                       timeout=900 if quick else 7200) if spec_scripts else ([], [])
+    traces_r, bad_r = vlib.run_harness(rand_scripts, wd, name="rand", shards=6 if quick else 16,
+                                       timeout=900 if quick else 7200) if rand_scripts else ([], [])
     lost = bad_s + bad_r
     if len(lost) > max(3, (len(spec_scripts) + len(rand_scripts)) // 50):
         raise vlib.ToolError("the harness process died or hung on %d scripts: %s" % (len(lost), lost[:3]))
@@ -425,8 +428,9 @@ def run_check(pid, tier, seed, keep=False):
 
     t_run = time.time() - t0
     # ---- judge: TraceMonitor on everything, TraceStore on the spec-driven runs
-    mon = vlib.validate_traces("TraceMonitor", traces_s + traces_r, wd)
-    sto = vlib.validate_traces("TraceStore", traces_s, wd) if traces_s and P.get("store_conformance", True) else []
+    vt = 900 if quick else 7200
+    mon = vlib.validate_traces("TraceMonitor", traces_s + traces_r, wd, timeout=vt)
+    sto = vlib.validate_traces("TraceStore", traces_s, wd, timeout=vt) if traces_s and P.get("store_conformance", True) else []
     cnt, viols, notes = {}, [], []
     for tp, r, o in mon:
         if r is None:
